@@ -19,6 +19,7 @@ import Rooc.Proofs.WFCompile
 import Rooc.Proofs.WFCompileExamples
 import Rooc.Proofs.WFAnalyzerProper
 import Rooc.Proofs.RatInst
+import Rooc.Proofs.WFPerm
 namespace Rooc.Props.C08
 open Rooc Rooc.Lin Rooc.WFDedup Rooc.Lin.Examples
 
@@ -481,5 +482,45 @@ example : ∃ lm : LinModel (Ext ℚ), Compile.linearize exA (.fin 0) 0 = .ok lm
     (assemble exA (Ctx.fromVar "x" Arith.one) exA_final) hdecl hfin
   rw [fieldExact_rat] at key
   exact ⟨_, hc, key hc⟩
+
+/-! ### 10. determinism up to the order of the domain map (the part that is proved)
+
+`Compile.linearize` is a function, so equal inputs give equal outputs; the question is what happens when only the
+ORDER of the declarations changes.  The implementation is checked metamorphically (harness stream
+`domain-permutation`, 0 differences).  Proved here: every read the lowering makes of the declared domain and of the
+bounds map is a name LOOKUP, unchanged by a permutation of a duplicate-free map; and the tail of
+`Linearizer::linearize` turns two final states that differ by the order of their domains into models with the same
+variables, objective, offset and rows and with permuted domains. -/
+
+/-- every read of the declared domain is permutation-invariant. -/
+theorem domain_reads_permutation_invariant {d d' : List (DomVar α)} (hp : d.Perm d')
+    (hn : (d.map (·.name)).Nodup) :
+    (∀ x, domainType d x = domainType d' x) ∧ (∀ x, isBoolVar d x = isBoolVar d' x) ∧
+    (∀ x, (d.any fun v => v.name == x) = (d'.any fun v => v.name == x)) ∧
+    (∀ c : Ctx α, isBinaryCtx c d = isBinaryCtx c d') ∧
+    (∀ e : Exp α, binaryAffineValue d e = binaryAffineValue d' e) ∧
+    (∀ (l r : Exp α) (c : Cmp), tryNormalize d l c r = tryNormalize d' l c r) :=
+  ⟨domainType_perm hp hn, isBoolVar_perm hp hn, declared_perm hp, isBinaryCtx_perm hp hn,
+    binaryAffineValue_perm hp hn, tryNormalize_perm hp hn⟩
+
+/-- every read of the bounds map depends on the lookup function only. -/
+theorem bounds_reads_lookup_only {b b' : BoundsMap α} (h : ∀ x, lookupB b x = lookupB b' x) :
+    (∀ e : Exp α, boundsOf b e = boundsOf b' e) ∧ (∀ es : List (Exp α), boundsOfList b es = boundsOfList b' es) ∧
+    (∀ e : Exp α, varsWithoutFiniteBounds e b = varsWithoutFiniteBounds e b') :=
+  ⟨boundsOf_ext h, boundsOfList_ext h, varsWithoutFiniteBounds_ext h⟩
+
+/-- the tail: same rows, permuted domains ⇒ same variables, objective, offset, rows; permuted output domain. -/
+theorem tail_permutation_invariant (m : Model α) (obj : Ctx α) {s s' : St α} (hp : s.domain.Perm s'.domain)
+    (hr : s.rows = s'.rows) :
+    (assemble m obj s).vars = (assemble m obj s').vars ∧ (assemble m obj s).objective = (assemble m obj s').objective ∧
+    (assemble m obj s).offset = (assemble m obj s').offset ∧ (assemble m obj s).rows = (assemble m obj s').rows ∧
+    (assemble m obj s).optType = (assemble m obj s').optType ∧
+    (assemble m obj s).domain.Perm (assemble m obj s').domain :=
+  assemble_perm m obj hp hr
+
+example : (assemble exA (Ctx.fromVar "x" Arith.one) exA_final).vars =
+    (assemble exA (Ctx.fromVar "x" Arith.one) { exA_final with domain := exA_final.domain.reverse }).vars :=
+  (tail_permutation_invariant exA _ (s' := { exA_final with domain := exA_final.domain.reverse })
+    (List.reverse_perm _).symm rfl).1
 
 end Rooc.Props.C08
